@@ -90,6 +90,15 @@ func verifHarnessBoundSimplifier() {
 	p := verifProbe{scaled: pv, isInt: verifBool("p-is-int")}
 	verifAssume(verifImplies(p.isInt, verifMIEq(verifMIModE(pv, verifMIPow10(maxExp)), verifMIConst(0))))
 	usedSat := true
+	// INT=1: the int type is always among the conjuncts (first or last), so that
+	// "int & lower & upper" is inside the bound already with K=2
+	withInt := verifParam("INT", 0) == 1
+	intFirst := withInt && verifChoice(2) == 0
+	if intFirst {
+		if s.add(&verifadt.BasicType{K: verifadt.IntKind}) {
+			usedSat = verifAnd(usedSat, p.isInt)
+		}
+	}
 	for i := 0; i < k; i++ {
 		var c verifadt.Value
 		var sat bool
@@ -112,6 +121,11 @@ func verifHarnessBoundSimplifier() {
 		}
 		if s.add(c) {
 			usedSat = verifAnd(usedSat, sat)
+		}
+	}
+	if withInt && !intFirst {
+		if s.add(&verifadt.BasicType{K: verifadt.IntKind}) {
+			usedSat = verifAnd(usedSat, p.isInt)
 		}
 	}
 	e := s.expr(nil)
